@@ -198,6 +198,20 @@ def runRB {α : Type} : Prog α → RB → Outcome α
     | (.err e, b') => runRB (k (.error e)) b'
     | (.panic, _) => .panic
 
+/-- is it an error of the client's reader itself (not one of the end-of-stream errors of package `io`)? -/
+def RErr.isReaderFailure : RErr → Bool
+  | .custom _ => true
+  | _ => false
+
+/-- the first failure of the reader itself that `ReadN` handed to the client during its run over the read buffer -/
+def firstReaderErr {α : Type} : Prog α → RB → Option RErr
+  | .ret _, _ => none
+  | .read n k, b =>
+    match b.readN n with
+    | (.ok bs, b') => firstReaderErr (k (.ok bs)) b'
+    | (.err e, b') => if e.isReaderFailure then some e else firstReaderErr (k (.error e)) b'
+    | (.panic, _) => none
+
 /-- run a client on the exact-n reader over a byte stream -/
 def runExact {α : Type} : Prog α → Bytes → α
   | .ret a, _ => a
